@@ -15833,6 +15833,17 @@ func (p *PathAttributePmsiTunnel) DecodeFromBytes(data []byte, options ...*Marsh
 	return nil
 }
 
+// tunnelID returns the tunnel identifier, or an empty one when the attribute
+// has none: DecodeFromBytes leaves TunnelID unset when it rejects a PMSI Tunnel
+// attribute shorter than 5 octets, and such an attribute stays in the UPDATE
+// that is handed to the caller together with the error.
+func (p *PathAttributePmsiTunnel) tunnelID() PmsiTunnelIDInterface {
+	if p.TunnelID == nil {
+		return &DefaultPmsiTunnelID{}
+	}
+	return p.TunnelID
+}
+
 func (p *PathAttributePmsiTunnel) Serialize(options ...*MarshallingOption) ([]byte, error) {
 	buf := make([]byte, 2)
 	if p.IsLeafInfoRequired {
@@ -15844,7 +15855,7 @@ func (p *PathAttributePmsiTunnel) Serialize(options ...*MarshallingOption) ([]by
 		return nil, err
 	}
 	buf = append(buf, tbuf...)
-	tbuf, err = p.TunnelID.Serialize()
+	tbuf, err = p.tunnelID().Serialize()
 	if err != nil {
 		return nil, err
 	}
@@ -15858,7 +15869,7 @@ func (p *PathAttributePmsiTunnel) String() string {
 	if p.IsLeafInfoRequired {
 		buf.WriteString(" leaf-info-required,")
 	}
-	fmt.Fprintf(buf, " label: %d, tunnel-id: %s}", p.Label, p.TunnelID)
+	fmt.Fprintf(buf, " label: %d, tunnel-id: %s}", p.Label, p.tunnelID())
 	return buf.String()
 }
 
@@ -15874,7 +15885,7 @@ func (p *PathAttributePmsiTunnel) MarshalJSON() ([]byte, error) {
 		IsLeafInfoRequired: p.IsLeafInfoRequired,
 		TunnelType:         uint8(p.TunnelType),
 		Label:              p.Label,
-		TunnelID:           p.TunnelID.String(),
+		TunnelID:           p.tunnelID().String(),
 	})
 }
 
